@@ -17,8 +17,11 @@ pub mod c05;
 pub mod c06;
 pub mod c07;
 pub mod c08;
+pub mod c09;
+pub mod c10;
 pub mod c11;
 pub mod c12;
+pub mod c15;
 pub mod c16;
 pub mod c17;
 pub mod c18;
@@ -106,8 +109,8 @@ pub fn sample_of(case: &SessionCase) -> Value {
 }
 
 /// checks that run in a child process under an address-space limit
-pub const ISOLATED: &[&str] = &["C08", "C11"];
-pub const ALL: &[&str] = &["C01", "C02", "C03", "C04", "C05", "C06", "C07", "C08", "C11", "C12", "C16", "C17", "C18"];
+pub const ISOLATED: &[&str] = &["C08", "C09", "C10", "C11"];
+pub const ALL: &[&str] = &["C01", "C02", "C03", "C04", "C05", "C06", "C07", "C08", "C09", "C10", "C11", "C12", "C15", "C16", "C17", "C18"];
 
 /// Case-count scaling (selftest runs a small slice of every check).
 pub fn scaled(n: u64) -> u64 {
@@ -127,8 +130,11 @@ pub fn dispatch(prop: &str, ctx: &Ctx) -> Option<i32> {
         "C06" => Some(c06::run(ctx)),
         "C07" => Some(c07::run(ctx)),
         "C08" => Some(c08::run(ctx)),
+        "C09" => Some(c09::run(ctx)),
+        "C10" => Some(c10::run(ctx)),
         "C11" => Some(c11::run(ctx)),
         "C12" => Some(c12::run(ctx)),
+        "C15" => Some(c15::run(ctx)),
         "C16" => Some(c16::run(ctx)),
         "C17" => Some(c17::run(ctx)),
         "C18" => Some(c18::run(ctx)),
@@ -146,8 +152,11 @@ pub fn replay(prop: &str, case: &Value) -> Option<Vec<Violation>> {
         "C06" => Some(c06::replay(case)),
         "C07" => Some(c07::replay(case)),
         "C08" => Some(c08::replay(case)),
+        "C09" => Some(c09::replay(case)),
+        "C10" => Some(c10::replay(case)),
         "C11" => Some(c11::replay(case)),
         "C12" => Some(c12::replay(case)),
+        "C15" => Some(c15::replay(case)),
         "C16" => Some(c16::replay(case)),
         "C17" => Some(c17::replay(case)),
         "C18" => Some(c18::replay(case)),
